@@ -59,6 +59,9 @@ FAILS = ['none', 'none', 'none', 'syntax', 'missing_include', 'merge_error', 're
 def gen_case(rng, tier):
     n = rng.choice([2, 2, 3, 4])
     jobs = []
+    shared = None
+    if rng.random() < 0.5:
+        shared = {'common.yaml': 'cm: 1\nfrom_leaf: !include leaf.yaml\n', 'leaf.yaml': 'lf: [1, 2]\ntl: !include deeper/tail.yaml\n', 'deeper/tail.yaml': 'tail: true\n'}
     for i in range(n):
         mk = gen.Marker(f'J{i}_')
         fail = rng.choice(FAILS)
@@ -80,6 +83,9 @@ def gen_case(rng, tier):
             files['main.yaml'] = main + '--- !notnew\nbrand_new_key: 1\n'
         elif fail == 'required':
             files['main.yaml'] = main + '---\nneeded: !required\n'
+        if shared and fail == 'none':
+            # every job also pulls in the same files (which include further files themselves)
+            files['main.yaml'] += '---\n!include ../shared/common.yaml\n' if rng.random() < 0.7 else '---\nsh: !include [../shared/leaf.yaml, ../shared/common.yaml]\n'
         jobs.append({'files': files, 'safe': rng.random() < 0.5, 'fail': fail, 'evaluate': rng.random() < 0.6})
     scheds = []
     for _ in range(2):
@@ -90,7 +96,7 @@ def gen_case(rng, tier):
     scheds.append({'policy': 'sweep', 'window': True})       # aimed at the thread-local windows (parsing phase)
     if rng.random() < 0.3:
         scheds.append({'policy': 'free', 'reps': 3})
-    return {'jobs': jobs, 'scheds': scheds}
+    return {'jobs': jobs, 'scheds': scheds, 'shared': shared}
 
 
 def dump_tree(t):
@@ -145,6 +151,13 @@ def run(case):
                 os.makedirs(os.path.dirname(p), exist_ok=True)
                 with open(p, 'w') as f:
                     f.write(txt)
+        for fn, txt in (case.get('shared') or {}).items():
+            p = os.path.join(root, 'shared', fn)
+            os.makedirs(os.path.dirname(p), exist_ok=True)
+            with open(p, 'w') as f:
+                f.write(txt)
+        if case.get('shared'):
+            feats.append('jobs_share_included_files')
         fns = [make_job(root, i, j) for i, j in enumerate(case['jobs'])]
         solo = {i: fn(i) for i, fn in enumerate(fns)}
         # second solo run: the comparison is only meaningful for deterministic jobs
